@@ -4,6 +4,7 @@
 -/
 import Y0.Model.Dsl
 import Y0.Lemmas.SemBasic
+import Y0.Lemmas.Graph
 import Mathlib.Data.List.Nodup
 import Mathlib.Data.List.Perm.Lattice
 
@@ -20,21 +21,7 @@ theorem inter'_eq_filter (l m : List α) : inter' l m = l.filter (fun a => memb 
 theorem diff'_eq_filter (l m : List α) : diff' l m = l.filter (fun a => !memb a m) := by
   unfold diff' memb; apply List.filter_congr; intro a _; simp
 
-theorem mem_dedup' {a : α} {l : List α} : a ∈ dedup' l ↔ a ∈ l := by
-  induction l with
-  | nil => simp [dedup']
-  | cons x xs ih =>
-    simp only [dedup', List.mem_cons, List.mem_filter, ih]
-    by_cases h : a = x
-    · simp [h]
-    · simp [h]
-
-theorem nodup_dedup' (l : List α) : (dedup' l).Nodup := by
-  induction l with
-  | nil => simp [dedup']
-  | cons x xs ih =>
-    simp only [dedup', List.nodup_cons, List.mem_filter]
-    exact ⟨fun h => by simpa using h.2, ih.filter _⟩
+-- `mem_dedup'` and `nodup_dedup'` are the shared lemmas of Y0/Lemmas/Graph.lean (imported above)
 
 theorem dedup'_of_nodup {l : List α} (h : l.Nodup) : dedup' l = l := by
   induction l with
